@@ -38,7 +38,8 @@ def _m_implies(ex, args, kw):
 
 
 class Raises:
-    def __init__(self, exc, when=None, ensures=None, iff=True):
+    def __init__(self, exc, when=None, ensures=None, iff=True, keeps_state=False):
+        self.keeps_state = keeps_state   # its ensures prove the state unchanged
         self.exc = exc
         self.when = when          # expression over the entry state, or None
         self.ensures = ensures or {}
@@ -46,7 +47,9 @@ class Raises:
 
 
 class Loop:
-    def __init__(self, invariant, modifies, index="_i", decreases=None):
+    def __init__(self, invariant, modifies, index="_i", decreases=None,
+                 body_post=None):
+        self.body_post = body_post or {}   # clauses over `pre.<local>` and the locals
         self.invariant = invariant if isinstance(invariant, dict) else \
             {str(i): e for i, e in enumerate(invariant)}
         self.modifies = modifies  # list of names or dict name -> schema
@@ -90,6 +93,11 @@ class Loop:
         if which == 0:
             if not cond:
                 raise PathEnd()
+            pre = Obj(object, {}, "pre")
+            for name in (self.modifies if not isinstance(self.modifies, dict)
+                         else self.modifies.keys()):
+                if "." not in name and frame.env.has(name):
+                    pre.fields[name] = snapshot(frame.env.lookup(name))
             try:
                 yield from ex.exec_block(node.body, frame)
             except _Continue:
@@ -97,6 +105,12 @@ class Loop:
             except _Break:
                 return
             self._check_inv(ex, c, frame, "inv_preserved", no)
+            if self.body_post:
+                env2 = Env(frame.env)
+                env2.vars["pre"] = pre
+                for k, e in self.body_post.items():
+                    ex.check(f"{c.short}.loop{no}.iteration[{k}]",
+                             c.eval_clause(ex, e, env2), e)
             raise PathEnd()
         if cond:
             raise PathEnd()
@@ -465,8 +479,11 @@ class Contract(Contract_):
                     chosen = nondet[k - 1]
                     if chosen.when is not None:
                         ex.assume(_as_term(self.eval_clause(ex, chosen.when, oldenv)))
-        # havoc the frame
+        # havoc the frame (an exceptional exit proved to leave the state as it
+        # was -- Raises(keeps_state=True) -- modifies nothing)
         for m in (self.modifies or ()):
+            if chosen is not None and getattr(chosen, "keeps_state", False):
+                break
             base, attr = m.split(".", 1)
             obj = env.lookup(base)
             schema = None
